@@ -126,13 +126,13 @@ type attemptRun struct {
 }
 
 type world struct {
-	sc    *Scenario
-	mu    sync.Mutex
-	trace []Ev
-	t0    time.Time
-	tg    map[string]*tgRun
-	cost  map[int64]time.Duration
-	refs  [nAddrs]int
+	sc         *Scenario
+	mu         sync.Mutex
+	trace      []Ev
+	t0         time.Time
+	tg         map[string]*tgRun
+	cost       map[int64]time.Duration
+	refs       [nAddrs]int
 	harnessErr string
 }
 
@@ -286,7 +286,9 @@ type stream struct {
 	fin error
 }
 
-func updateID(tgIdx, n, pos int) int64 { return int64(tgIdx+1)*1000000 + int64(n)*1000 + int64(pos) + 1 }
+func updateID(tgIdx, n, pos int) int64 {
+	return int64(tgIdx+1)*1000000 + int64(n)*1000 + int64(pos) + 1
+}
 
 func (s *stream) Send(req *gpb.SubscribeRequest) error {
 	info := "prefix-target=" + req.GetSubscribe().GetPrefix().GetTarget()
